@@ -3,3 +3,4 @@ import CliUtils.Props.C19
 import CliUtils.Props.C15
 import CliUtils.Props.C06
 import CliUtils.Props.C20
+import CliUtils.Props.C17
